@@ -52,6 +52,8 @@ class World:
         _current = self
         self.clock = t0
         self.loops = 0
+        self.before_sleep = []      # callables run when the loop is about to let time pass;
+                                    # one returning True did work at this instant: re-evaluate
         task._Trigger = _Wake
         task._time = _now
         TaskManager._singleton_instance = None
@@ -83,6 +85,12 @@ class World:
                 wake.woken = False
                 return                      # select() woken at once, no time passes
             if core.deferredFns:
+                return
+            did = False
+            for fn in w.before_sleep:
+                if fn():
+                    did = True
+            if did:
                 return
             if timeout >= HUGE:             # nothing scheduled
                 if until is not None and w.clock < until:
